@@ -335,9 +335,9 @@ def _case_worker(task):
     rng = random.Random(f"{seed}:{idx}")
     with warnings.catch_warnings():
         warnings.simplefilter("ignore")
-        feat = {}
+        feat = {"custom": True}
         if mode == "naming":  # no version adaptation: every name is predictable
-            feat = {"mixed": False, "rmax": False}
+            feat = {"mixed": False, "rmax": False, "custom": True}
         g = L.Gen(rng, feat)
         spec = g.gen_spec()
         st, m = L.build_spec(spec)
@@ -349,7 +349,7 @@ def _case_worker(task):
             out["err"] = m
         else:
             n0 = len(L.ORT_UNSUPPORTED)
-            out["bad"] = L.judge_model(m, want_ort=want_ort)
+            out["bad"] = L.judge_model(m, want_ort=want_ort, custom_keys=custom_keys(spec))
             out["ort_skipped"] = not want_ort
             out["ort_unsupported"] = L.ORT_UNSUPPORTED[n0:]
             out["named"] = strip_ops(L.proto_to_named(m.graph))
@@ -362,6 +362,10 @@ def _case_worker(task):
             except Exception as e:  # noqa: BLE001
                 out["tree"], out["real"] = None, ("extract-failed", f"{type(e).__name__}: {e}")
         return out
+
+
+def custom_keys(spec):
+    return [(c["domain"], c["ident"]) for c in spec.get("customs", [])]
 
 
 def classify(bad):
@@ -501,7 +505,7 @@ def run(ck: core.Check):
         st, m = L.build_spec(hs)
         r = {"spec": hs, "status": st, "stats": L.spec_stats(hs)}
         if st == "ok":
-            r["bad"] = L.judge_model(m)
+            r["bad"] = L.judge_model(m, custom_keys=custom_keys(hs))
             r["named"] = strip_ops(L.proto_to_named(m.graph))
             r["fnamed"] = [strip_ops(L.func_to_named(f)) for f in m.functions]
             r["walker"] = L.walk_named(L.proto_to_named(m.graph))
@@ -514,13 +518,14 @@ def run(ck: core.Check):
         ck.broken("correspondence", "C02 generated-program worker failed",
                   f"{len(crashes)} cases; first: {crashes[0]['crash']} {crashes[0].get('trace', '')[-400:]}")
     results = [r for r in results if not r.get("crash")]
-    dist = {"returned": 0, "raised": {}, "if": 0, "loop": 0, "inline": 0, "call": 0, "max_depth": 0,
+    dist = {"returned": 0, "raised": {}, "if": 0, "loop": 0, "inline": 0, "call": 0, "custom_ops": 0, "max_depth": 0,
             "mixed_versions": 0, "drop_true": 0}
     best: dict[str, dict] = {}
     for r in results:
         s = r["stats"]
         for k in ("if", "loop", "inline", "call"):
             dist[k] += int(s[k] > 0)
+        dist["custom_ops"] += int(s.get("custom", 0) > 0)
         dist["max_depth"] = max(dist["max_depth"], s["depth"])
         dist["mixed_versions"] += int(len(s["vers"]) > 1)
         dist["drop_true"] += int(bool(r["spec"].get("drop")))
@@ -640,7 +645,7 @@ def replay(ck: core.Check, doc) -> bool:
     if st == "err":
         print("build raised:", m)
         return False
-    bad = L.judge_model(m)
+    bad = L.judge_model(m, custom_keys=custom_keys(spec))
     for k, d in bad:
         print(f"{k}: {d}")
     return bool(bad)
